@@ -338,4 +338,12 @@ Section Tables.
     | Err c => Err c
     | Ok fin => finalize s fin
     end.
+
+  (* pedal/resolvers/sectional.py: the TRIGGERED feedback is grouped by its parent (section / group) and every group is
+     resolved on its own, exactly as above; untriggered feedback takes no part.  [tagged]: (group, feedback) in creation order *)
+  Definition group_of (tagged : list (nat * fb)) (g : nat) : list fb :=
+    map snd (filter (fun p => Nat.eqb (fst p) g) tagged).
+  Definition sectional_at (tagged : list (nat * fb)) (calls : list supp_call) (g : nat) : res result :=
+    resolve (group_of tagged g) [] calls.
+  Definition sect_groups (tagged : list (nat * fb)) : list nat := nodup Nat.eq_dec (map fst tagged).
 End Tables.
